@@ -13,13 +13,16 @@ exampleCoUk   == <<Str("example"), Str("co"), Str("uk")>>
 notexampleOrg == <<Str("notexample"), Str("org")>>
 exampleWild   == <<Str("example"), <<42>>>>
 exampleOther  == <<Str("example"), Str("other"), Str("com")>>     \* "example." followed by something that is no public suffix
-Hosts == <<exampleOrg, subExampleOrg, aSubExample, otherOrg, exampleCom, exampleCoUk, notexampleOrg, exampleOther>>
+subExampleWild == <<Str("sub"), Str("example"), <<42>>>>          \* a name of several labels under any public suffix
+myShopExample  == <<Str("my_shop"), Str("example"), Str("org")>>  \* labels of a page's own name need not be letters and digits
+dashExample    == <<Str("-cdn"), Str("sub"), Str("example"), Str("org")>>
+Hosts == <<exampleOrg, subExampleOrg, aSubExample, otherOrg, exampleCom, exampleCoUk, notexampleOrg, exampleOther, myShopExample, dashExample>>
 R(e, c, p, x) == [exc |-> e, content |-> c, permDom |-> p, restDom |-> x]
 Pool == << R(FALSE, "s1", {}, {}), R(FALSE, "s2", {}, {}), R(FALSE, "s1", {}, {exampleOrg}),
            R(FALSE, "s1", {exampleOrg}, {}), R(FALSE, "s2", {exampleOrg}, {}), R(FALSE, "s3", {subExampleOrg}, {}),
            R(FALSE, "s3", {exampleOrg, exampleCom}, {}), R(FALSE, "s2", {exampleOrg}, {subExampleOrg}),
            R(FALSE, "s1", {exampleWild}, {}), R(FALSE, "s1", {exampleCom}, {exampleCom}), R(FALSE, "s3", {}, {exampleWild}),
-           R(FALSE, "s2", {exampleWild, otherOrg}, {}),
+           R(FALSE, "s2", {exampleWild, otherOrg}, {}), R(FALSE, "s3", {subExampleWild}, {}),
            R(TRUE, "s1", {exampleOrg}, {}), R(TRUE, "s1", {subExampleOrg}, {}), R(TRUE, "s2", {exampleCom}, {}),
            R(TRUE, "s3", {exampleWild}, {}), R(TRUE, "s2", {exampleOrg}, {subExampleOrg}) >>
 NP == Len(Pool)
